@@ -241,7 +241,7 @@ def _run(scn, w: GwWorld, res: RunResult):
     for r in w.writes:
         parts = r["line"].rstrip("\n").split(";")
         if len(parts) >= 6 and parts[2] == "1" and r["ok"]:
-            if ";".join(parts[5:]).startswith("stored-") and r["seq_start"] is not None:
+            if r["seq_start"] is not None:
                 # a reply to a value request, written while that request was being handled (before the listener
                 # yielded it): the controller's reaction, not a parked command. A 'stored' value that shows up at
                 # any other moment is judged like every other write.
